@@ -67,3 +67,16 @@ claim("C20", "PBT (rapid), model-based: generated histories of queries sharing o
       "Generated histories (1-5 queries, preset maps, read-modify-write patterns) replayed against a register model; every GETVAR column, the absence of SETVAR columns and the caller's map after each Exec are compared; held on everything explored.",
       "No ORDER BY/GROUP BY/LIMIT/joins (evaluation order unspecified there); WHERE does not read variables.",
       "DESIGN.md 4/C20")
+
+claim("C11", "PBT (rapid): 33 wide query constructs x Wrapped x injected part-way failures x re-execution; invariant = cycle-safe structural comparison of the live input against a deep snapshot",
+      "Generated-input search over every clause/composition form of the grammar (filters, subqueries, EXISTS, CTEs, joins, ORDER BY, aggregates), with and without an injected failure at a generated invocation index; the input document is compared with a snapshot after New+Exec; held on everything explored.",
+      "Fault positions are those where the engine accepts a function call; k is sampled per case here (C19 enumerates every k).",
+      "DESIGN.md 4/C11")
+claim("C12", "PBT: exhaustive 41-form x 19-position grid on fixed documents every run + rapid random documents/forms/positions/wide constructs; invariant = reflective plain-data walk + json.Marshal + re-execution equality",
+      "Every run enumerates all (expression form, clause position) pairs on two fixed documents and then searches random documents; each successful result is walked reflectively for non-data values, marshalled, and the query is re-executed twice on fresh equal inputs; held on everything explored.",
+      "ASYNC calls are placed only as direct select-list items (statement); combinations rejected by the engine with an error are counted separately; TIMESTAMP excluded from determinism.",
+      "DESIGN.md 4/C12")
+claim("C19", "Fault enumeration driven by PBT (rapid): for each generated (query, fault position) EVERY invocation index k=1..N of the injected function fails once; plus planted type errors and RAISE/RAISE_WHEN with engine-evaluated firing probe; oracle = error and no rows, follow-up queries on the same input equal pristine runs",
+      "For each generated query and clause position the fault-free run counts N invocations and every k in 1..N (cap 64) is executed with the function failing at k; New/Exec must return an error and no rows, and follow-up queries on the same input object must behave as on a pristine copy.",
+      "Positions where the engine rejects function calls (join ON, aggregate arguments under GROUP BY) cannot carry a fault and are discarded (counted); only synchronous calls, per the statement.",
+      "DESIGN.md 4/C19", category="fault_enumeration")
